@@ -41,7 +41,12 @@ func buildParser(gr *gfam.Grammar, tc g.TypeCache, k int) (p *participle.Parser[
 		participle.UseLookahead(k),
 		participle.Union[any](reflect.New(rootT).Elem().Interface()),
 	}
+	slotSeen := map[int]bool{}
 	for _, u := range gr.Root.Unions() {
+		if slotSeen[u.UnionSlot] {
+			continue // the same union leaf used twice in one grammar: one Union option per interface type
+		}
+		slotSeen[u.UnionSlot] = true
 		opts = append(opts, unionOption(u, tc))
 	}
 	// one Elide option per type: the elision set is the union of all Elide options
@@ -446,7 +451,76 @@ type longG struct {
 	B []string `| @"a"+ "c" )`
 }
 
+// A user-implemented production that delegates to a second parser through ParseFromLexer: an overrun
+// inside the delegated parse must be visible to the enclosing choice point exactly like a native one.
+type delegSub struct {
+	C string `( "a" "b" @"c"`
+	D string `| "a" "b" @"d" )`
+}
+
+var delegParser *participle.Parser[delegSub] // set per lookahead by runDelegation (single goroutine)
+
+type Deleg struct {
+	Sub *delegSub
+}
+
+func (d *Deleg) Parse(lex *lexer.PeekingLexer) error {
+	v, err := delegParser.ParseFromLexer(lex, participle.AllowTrailing(true))
+	if err != nil {
+		return err
+	}
+	d.Sub = v
+	return nil
+}
+
+type delegOuter struct {
+	X   *Deleg   `( @@`
+	Raw []string `| @Ident+ )`
+}
+
+func runDelegation(w *hx.Worker) {
+	chain := []int{0, 1, 2, 3, participle.MaxLookahead, -1}
+	for _, in := range inputs("abcd", 4) {
+		var prevOK bool
+		var prevR string
+		prevK := 0
+		for i, k := range chain {
+			var err error
+			delegParser, err = participle.Build[delegSub](participle.Lexer(lexDef), participle.UseLookahead(k))
+			if err != nil {
+				w.Violate(hx.Violation{Key: "delegation build", Class: "build-failed", Detail: map[string]any{"err": err.Error()}})
+				return
+			}
+			p, err := participle.Build[delegOuter](participle.Lexer(lexDef), participle.UseLookahead(k))
+			if err != nil {
+				w.Violate(hx.Violation{Key: "delegation build", Class: "build-failed", Detail: map[string]any{"err": err.Error()}})
+				return
+			}
+			var v *delegOuter
+			var perr error
+			pan, _ := hx.Guard(func() { v, perr = p.ParseString("", in) })
+			w.Count("evaluations", 1)
+			ok := !pan && perr == nil
+			r := ""
+			if ok {
+				r = g.RenderValue(reflect.ValueOf(v), false)
+			}
+			key := fmt.Sprintf("delegation :: Parseable production delegating to a second parser :: in=%q :: k=%d->%d", in, prevK, k)
+			if i > 0 && prevOK {
+				if !ok {
+					w.Violate(hx.Violation{Key: key, Class: "success-lost-with-more-lookahead", Detail: map[string]any{"error": fmt.Sprint(perr)}})
+				} else if r != prevR {
+					w.Violate(hx.Violation{Key: key, Class: "ast-changed-with-more-lookahead", Detail: map[string]any{"before": prevR, "after": r}})
+				}
+			}
+			prevOK, prevR, prevK = ok, r, k
+			w.DistinctS("deleg" + in + r)
+		}
+	}
+}
+
 func runLongBranch(w *hx.Worker) {
+	runDelegation(w)
 	n := participle.MaxLookahead + 2
 	in := strings.Repeat("a", n) + "c"
 	var prevOK *bool
